@@ -191,13 +191,19 @@ def ted_cache_keys(repo: Repo, res: CheckResult) -> None:
             for a in ast.walk(fn):
                 if isinstance(a, ast.Assign) and len(a.targets) == 1 and isinstance(a.targets[0], ast.Name):
                     assigned.setdefault(a.targets[0].id, []).append(a.value)
+            def _selects_literal(e_: ast.AST) -> bool:
+                return any(isinstance(c, ast.Compare) and len(c.ops) == 1 and isinstance(c.ops[0], (ast.Is, ast.Eq))
+                           and isinstance(c.left, ast.Attribute) and c.left.attr == "origin"
+                           and norm(c.comparators[0]).split(".")[-1] == "Literal" for c in ast.walk(e_))
+            # locals that HOLD a Literal case (`literal_case = next(case for case in norm.args if case.origin is Literal)`)
+            lit_locals = {nm for nm, vals in assigned.items() if any(_selects_literal(v) for v in vals)}
             for node in ast.walk(fn):
                 if not (isinstance(node, ast.Call) and isinstance(node.func, ast.Attribute) and node.func.attr == "cached_call"):
                     continue
                 for a in list(node.args[1:]) + [k.value for k in node.keywords]:
                     exprs = [a] + (assigned.get(a.id, []) if isinstance(a, ast.Name) else [])
                     for e in exprs:
-                        lit_vars = {norm(c.left.value) for c in ast.walk(e) if isinstance(c, ast.Compare) and len(c.ops) == 1
+                        lit_vars = lit_locals | {norm(c.left.value) for c in ast.walk(e) if isinstance(c, ast.Compare) and len(c.ops) == 1
                                     and isinstance(c.ops[0], (ast.Is, ast.Eq)) and isinstance(c.left, ast.Attribute) and c.left.attr == "origin"
                                     and norm(c.comparators[0]).split(".")[-1] == "Literal"}
                         raw = [x for x in ast.walk(e) if isinstance(x, ast.Attribute) and x.attr == "args" and norm(x.value) in lit_vars]
